@@ -1,3 +1,5 @@
+//go:build verif
+
 // Package vsched is a cooperative scheduler for stateless, preemption-bounded
 // exploration of the real godi code (CHESS style).  godi's sources are rebuilt
 // with sync / sync/atomic / go statements / <-ctx.Done() / map ranges redirected
@@ -556,4 +558,50 @@ func NoteString(x string) {
 		}
 		s.noteHash = mix64(s.noteHash, h)
 	}
+}
+
+// AfterFunc replaces context.AfterFunc: f runs in its own logical thread once
+// ctx is done; the returned stop function prevents that if it has not started.
+func AfterFunc(ctx context.Context, f func()) (stop func() bool) {
+	s := cur
+	if s == nil || s.aborting {
+		return context.AfterFunc(ctx, f)
+	}
+	stopped, started := false, false
+	Go(func() {
+		WaitDoneOr(ctx, func() bool { return stopped })
+		if stopped {
+			return
+		}
+		started = true
+		f()
+	})
+	return func() bool {
+		if started || stopped {
+			return false
+		}
+		stopped = true
+		return true
+	}
+}
+
+// WaitDoneOr is WaitDone that also wakes up when alt() becomes true.
+func WaitDoneOr(ctx context.Context, alt func() bool) {
+	s := cur
+	if s == nil || s.aborting {
+		<-ctx.Done()
+		return
+	}
+	t := s.running
+	t.daemon = true
+	t.relVC = nil
+	if ctx.Err() != nil {
+		t.relVC = s.cancelClock()
+	}
+	s.point("waitdone", func() bool { return ctx.Err() != nil || alt() })
+	t.daemon = false
+	if t.relVC != nil {
+		t.vc.join(t.relVC)
+	}
+	t.relVC = nil
 }
